@@ -141,7 +141,25 @@ where
         self.history.hash(state);
         self.timers_set.hash(state);
         self.network.hash(state);
+        // Crash flags and pending random choices determine which actions are enabled, so they
+        // are part of a state's identity.
+        self.crashed.hash(state);
+        for (index, choices) in pending_random_choices(&self.random_choices) {
+            index.hash(state);
+            choices.map.hash(state);
+        }
     }
+}
+
+/// The actors that have a pending random choice, with their choices. An actor without an entry
+/// in `random_choices` is equivalent to one whose entry is empty.
+fn pending_random_choices<Random>(
+    random_choices: &[RandomChoices<Random>],
+) -> impl Iterator<Item = (usize, &RandomChoices<Random>)> {
+    random_choices
+        .iter()
+        .enumerate()
+        .filter(|(_, choices)| !choices.map.is_empty())
 }
 
 // Manual implementation to avoid `PartialEq` constraint that `#derive(PartialEq)` would
@@ -157,6 +175,11 @@ where
             && self.history.eq(&other.history)
             && self.timers_set.eq(&other.timers_set)
             && self.network.eq(&other.network)
+            && self.crashed.eq(&other.crashed)
+            && pending_random_choices(&self.random_choices)
+                .map(|(index, choices)| (index, &choices.map))
+                .eq(pending_random_choices(&other.random_choices)
+                    .map(|(index, choices)| (index, &choices.map)))
     }
 }
 
